@@ -586,7 +586,19 @@ class BasePool(typing.Generic[C]):
         started_at: float,
     ) -> None:
         self._log_to_snapshot(dbname=from_block.dbname, event='transfer-from')
-        await self._disconnect(from_conn, from_block)
+        try:
+            await self._disconnect(from_conn, from_block)
+        except Exception:
+            # The connection is gone as far as the pool is concerned
+            # (_disconnect() has given its capacity back), but `to_block`
+            # was promised a connection in _schedule_transfer(): go on and
+            # open it, or `to_block.pending_conns` stays incremented
+            # forever and its waiters are never served.
+            logger.error(
+                "Failed to close a connection to backend database: %s",
+                from_block.dbname,
+                exc_info=True,
+            )
         from_block.log_connection('transferred out')
         self._cur_capacity += 1
         await self._connect(to_block, started_at, 'transferred in')
